@@ -10,7 +10,44 @@ func (c *verifNopCloser) Write(p []byte) (int, error) { return len(p), nil }
 func (c *verifNopCloser) Close() error                { c.closed++; return nil }
 
 // verifCheckLive: no File is closed while a fid still maps to it, none was used after Close.
+// verifCheckRefs: reference-count invariant of the fid table at quiescence
+// (no request in flight): every fidRef reachable from the table through
+// parent links is held exactly by the fids mapping to it plus the reachable
+// fidRefs whose parent it is. One missing or surplus reference shows here
+// before any Close goes wrong.
+func verifCheckRefs(x *verifSess, when string) {
+	var all []*fidRef
+	seen := func(r *fidRef) bool {
+		for _, o := range all {
+			if o == r {
+				return true
+			}
+		}
+		return false
+	}
+	for _, ref := range x.cs.fids {
+		for r := ref; r != nil && !seen(r); r = r.parent {
+			all = append(all, r)
+		}
+	}
+	for _, r := range all {
+		want := int64(0)
+		for _, ref := range x.cs.fids {
+			if ref == r {
+				want++
+			}
+		}
+		for _, o := range all {
+			if o.parent == r {
+				want++
+			}
+		}
+		verifAssert(r.refs == want, "reference count = fids bound to the File + children holding it as parent ("+when+")")
+	}
+}
+
 func verifCheckLive(x *verifSess, when string) {
+	verifCheckRefs(x, when)
 	for _, ref := range x.cs.fids {
 		if n, ok := ref.file.(*verifNode); ok {
 			verifAssert(n.closed == 0, "no File is closed while a fid still maps to it ("+when+")")
